@@ -7,6 +7,9 @@ package objectdeployments
 // of a controller built by NewObjectDeploymentController with the archive reconciler as its only
 // sub-reconciler (via=ctrl; listing, sorting, current/previous split and pause propagation are the
 // real code).  A recording in-memory client.Client captures the ordered writes.
+// Revisions can be terminating (deletionTimestamp set by an earlier pruning round, finalizer held,
+// still listed) in any position.  Multi-round histories (prune, revision still terminating, prune
+// again, ...) are in zz_verif_c08_hist_test.go (stream "hist").
 
 import (
 	"context"
@@ -39,6 +42,7 @@ type c08Rev struct {
 	Co  []int  `json:"co"`  // status.controllerOf keys; null = nil slice, [] = empty non-nil slice
 	Obj []int  `json:"obj"` // keys of the objects in spec.phases
 	Hm  bool   `json:"hm"`  // hash annotation equals the deployment's status.templateHash
+	Dt  bool   `json:"dt"`  // deletionTimestamp set: deleted in an earlier round, teardown pending, still listed
 }
 
 type c08Scn struct {
@@ -84,32 +88,7 @@ func c08ObjectSet(i int, r c08Rev) *corev1alpha1.ObjectSet {
 			os.Spec.LifecycleState = corev1alpha1.ObjectSetLifecycleStateActive
 		} // else: left empty, which is neither paused nor archived
 	}
-	if r.Av {
-		os.Status.Conditions = append(os.Status.Conditions, metav1.Condition{
-			Type: corev1alpha1.ObjectSetAvailable, Status: metav1.ConditionTrue, Reason: "x",
-		})
-	} else if i%2 == 0 {
-		os.Status.Conditions = append(os.Status.Conditions, metav1.Condition{
-			Type: corev1alpha1.ObjectSetAvailable, Status: metav1.ConditionFalse, Reason: "x",
-		})
-	}
-	if r.Sp {
-		os.Status.Conditions = append(os.Status.Conditions, metav1.Condition{
-			Type: corev1alpha1.ObjectSetPaused, Status: metav1.ConditionTrue, Reason: "x",
-		})
-	} else if i%2 == 1 {
-		os.Status.Conditions = append(os.Status.Conditions, metav1.Condition{
-			Type: corev1alpha1.ObjectSetPaused, Status: metav1.ConditionUnknown, Reason: "x",
-		})
-	}
-	if r.Co != nil {
-		os.Status.ControllerOf = make([]corev1alpha1.ControlledObjectReference, 0, len(r.Co))
-		for _, k := range r.Co {
-			os.Status.ControllerOf = append(os.Status.ControllerOf, corev1alpha1.ControlledObjectReference{
-				Kind: "ConfigMap", Group: "", Name: "k" + strconv.Itoa(k), Namespace: c08NS,
-			})
-		}
-	}
+	c08SetStatus(os, i, r.Av, r.Sp, r.Co)
 	// objects: first key in phase "a", the rest in phase "b"; namespace left empty for even keys
 	// (getObjects defaults it to the ObjectSet's namespace).
 	var phases []corev1alpha1.ObjectSetTemplatePhase
@@ -130,7 +109,47 @@ func c08ObjectSet(i int, r c08Rev) *corev1alpha1.ObjectSet {
 		p.Objects = append(p.Objects, o)
 	}
 	os.Spec.Phases = phases
+	if r.Dt {
+		// deleted by an earlier pruning round (or by anybody else); the teardown has not finished,
+		// so the finalizer keeps the object around and it is still listed.
+		ts := metav1.Unix(1, 0)
+		os.DeletionTimestamp = &ts
+		os.Finalizers = []string{"package-operator.run/cached"}
+	}
 	return os
+}
+
+// c08SetStatus writes what the ObjectSet controller reports: Available / Paused conditions and
+// status.controllerOf (the encodings of "false" vary with the parity of i).
+func c08SetStatus(os *corev1alpha1.ObjectSet, i int, av, sp bool, co []int) {
+	os.Status.Conditions = nil
+	os.Status.ControllerOf = nil
+	if av {
+		os.Status.Conditions = append(os.Status.Conditions, metav1.Condition{
+			Type: corev1alpha1.ObjectSetAvailable, Status: metav1.ConditionTrue, Reason: "x",
+		})
+	} else if i%2 == 0 {
+		os.Status.Conditions = append(os.Status.Conditions, metav1.Condition{
+			Type: corev1alpha1.ObjectSetAvailable, Status: metav1.ConditionFalse, Reason: "x",
+		})
+	}
+	if sp {
+		os.Status.Conditions = append(os.Status.Conditions, metav1.Condition{
+			Type: corev1alpha1.ObjectSetPaused, Status: metav1.ConditionTrue, Reason: "x",
+		})
+	} else if i%2 == 1 {
+		os.Status.Conditions = append(os.Status.Conditions, metav1.Condition{
+			Type: corev1alpha1.ObjectSetPaused, Status: metav1.ConditionUnknown, Reason: "x",
+		})
+	}
+	if co != nil {
+		os.Status.ControllerOf = make([]corev1alpha1.ControlledObjectReference, 0, len(co))
+		for _, k := range co {
+			os.Status.ControllerOf = append(os.Status.ControllerOf, corev1alpha1.ControlledObjectReference{
+				Kind: "ConfigMap", Group: "", Name: "k" + strconv.Itoa(k), Namespace: c08NS,
+			})
+		}
+	}
 }
 
 // c08Client is a minimal recording client.Client.  Methods not overridden panic (nil embedded
@@ -168,7 +187,14 @@ func (c *c08Client) write(obj client.Object) error {
 	if _, known := c.store[os.Name]; !known || c.gone[os.Name] {
 		return apierrors.NewNotFound(schema.GroupResource{Group: "package-operator.run", Resource: "objectsets"}, os.Name)
 	}
-	c.store[os.Name] = os.DeepCopy()
+	// metadata.deletionTimestamp / finalizers of a terminating object are not the writer's to change
+	old := c.store[os.Name]
+	cp := os.DeepCopy()
+	cp.DeletionTimestamp = old.DeletionTimestamp
+	if old.DeletionTimestamp != nil {
+		cp.Finalizers = old.Finalizers
+	}
+	c.store[os.Name] = cp
 	return nil
 }
 
@@ -224,7 +250,7 @@ func c08Exec(s c08Scn) string {
 	c := &c08Client{fin: s.Fin, store: map[string]*corev1alpha1.ObjectSet{}, gone: map[string]bool{}}
 	for i, r := range s.Revs {
 		os := c08ObjectSet(i, r)
-		if s.Fin {
+		if s.Fin || r.Dt {
 			os.Finalizers = []string{"package-operator.run/cached"}
 		}
 		c.items = append(c.items, os)
@@ -299,6 +325,12 @@ func c08Tags(s c08Scn, out string) []string {
 	}
 	if !s.Fin {
 		tags = append(tags, "nofinalizer")
+	}
+	for _, rv := range s.Revs {
+		if rv.Dt {
+			tags = append(tags, "terminating-listed")
+			break
+		}
 	}
 	body := strings.SplitN(out, ";", 2)[0]
 	seen := map[string]bool{}
@@ -462,6 +494,72 @@ func TestVerifC08(t *testing.T) {
 	r.Extra["exhaustive_arch_len"] = L
 	r.Extra["exhaustive_arch_count"] = count
 
+	// ---- 1b. terminating revisions (deletionTimestamp set, still listed) in ANY position: every
+	// non-empty subset of positions of strictly ascending chains of length <= 4 (quick) / 5
+	// (thorough) x a reduced flag table of every revision x every revisionHistoryLimit x
+	// controllerOf empty / overlapping, through both entry points.
+	{
+		type fl struct {
+			lc     string
+			av, sp bool
+		}
+		red := []fl{{"X", false, true}, {"P", false, true}, {"A", true, false}, {"A", false, false}}
+		LT := r.Pick(4, 5)
+		count = 0
+		cyc = 0
+		for n := 1; n <= LT; n++ {
+			limits := c08Limits(n)
+			total := 1
+			for i := 0; i < n; i++ {
+				total *= len(red)
+			}
+			for a := 0; a < total; a++ {
+				for mask := 1; mask < 1<<n; mask++ {
+					for _, cls := range []int{1, 3} {
+						revs := make([]c08Rev, n)
+						x := a
+						for i := 0; i < n; i++ {
+							f := red[x%len(red)]
+							x /= len(red)
+							revs[i] = c08Rev{Rev: int64(i + 1), Lc: f.lc, Av: f.av, Sp: f.sp, Obj: []int{i % 3},
+								Hm: i == n-1, Dt: mask&(1<<i) != 0}
+							if i < n-1 {
+								revs[i].Co = c08Co(i, cls)
+							}
+						}
+						if n <= 4 {
+							for _, l := range limits {
+								via := "arch"
+								if cyc%2 == 1 {
+									via = "ctrl"
+								}
+								cyc++
+								if n <= 3 {
+									runBoth(c08Scn{Via: "arch", Revs: revs, Cur: true, Limit: l})
+									runBoth(c08Scn{Via: "ctrl", Revs: revs, Limit: l})
+									count += 2
+								} else {
+									runBoth(c08Scn{Via: via, Revs: revs, Cur: true, Limit: l})
+									count++
+								}
+							}
+						} else {
+							via := "arch"
+							if cyc%2 == 1 {
+								via = "ctrl"
+							}
+							runBoth(c08Scn{Via: via, Revs: revs, Cur: true, Limit: limits[cyc%len(limits)]})
+							cyc++
+							count++
+						}
+					}
+				}
+			}
+		}
+		r.Extra["exhaustive_terminating_len"] = LT
+		r.Extra["exhaustive_terminating_count"] = count
+	}
+
 	// ---- 2. malformed direct calls: every assignment of revisions {0..n}^n (ties, unsorted, zero)
 	// for n <= 3 with every flag combination; relations, limit and current drawn at random.
 	count = 0
@@ -602,6 +700,10 @@ func TestVerifC08(t *testing.T) {
 			if shape == 1 && r.Rng.Intn(n+1) == 0 {
 				rv.Rev = 0
 			}
+			// pruned (or otherwise deleted) in an earlier round, teardown pending, still listed
+			if s.Fin && r.Rng.Intn(5) == 0 {
+				rv.Dt = true
+			}
 			s.Revs = append(s.Revs, rv)
 		}
 		lim := c08Limits(n)
@@ -619,6 +721,9 @@ func TestVerifC08(t *testing.T) {
 				Obj: randKeys(), Hm: true, Co: randKeys()}
 			if i < n-2 && r.Rng.Intn(4) != 0 {
 				rv.Lc, rv.Sp, rv.Av = "X", true, false
+			}
+			if s.Fin && i < n-1 && r.Rng.Intn(4) == 0 {
+				rv.Dt = true
 			}
 			s.Revs = append(s.Revs, rv)
 		}
